@@ -52,6 +52,43 @@ pub fn config_json(cfg: &StoreCfg, path: &Path, extra_merge: Option<serde_json::
     serde_json::from_value(j).expect("store configuration must deserialize")
 }
 
+/// Number of live threads of this process whose name starts with `prefix` (comm is cut to 15 bytes).
+pub fn threads_named(prefix: &str) -> usize {
+    let p15 = &prefix[..prefix.len().min(15)];
+    let mut n = 0;
+    if let Ok(rd) = std::fs::read_dir("/proc/self/task") {
+        for e in rd.filter_map(|e| e.ok()) {
+            if let Ok(c) = std::fs::read_to_string(e.path().join("comm")) {
+                if c.trim_end().starts_with(p15) {
+                    n += 1;
+                }
+            }
+        }
+    }
+    n
+}
+
+pub fn thread_count() -> usize {
+    std::fs::read_dir("/proc/self/task").map(|rd| rd.count()).unwrap_or(0)
+}
+
+/// Wait until the background worker of a dropped store is gone, i.e. the process is back to
+/// `base` threads (a worker may still flush and close descriptors, which would disturb the
+/// recorder and the injector of the next run; a worker that has not started yet does not even
+/// carry its name, hence the count).
+pub fn wait_bg_exit(base: usize) -> bool {
+    let t0 = std::time::Instant::now();
+    loop {
+        if thread_count() <= base {
+            return true;
+        }
+        if t0.elapsed() > std::time::Duration::from_secs(10) {
+            return false;
+        }
+        std::thread::sleep(std::time::Duration::from_micros(100));
+    }
+}
+
 pub fn open_store(cfg: &StoreCfg, path: &Path) -> Result<Bitcask, Error> {
     config_json(cfg, path, None, None).open()
 }
